@@ -235,3 +235,53 @@ def coq_hints(cap, dfa=None):
     dd = 'mk_pset ' + coq_list(str(q) for q in dead)
     r = 'mk_rank ' + coq_list('(%d,%d)' % (q, rk) for q, rk in sorted(rank.items()))
     return v, dd, r, dict(pairs=sum(len(x) for x in V.values()), live=len(rank), dead=len(dead))
+
+
+# ------------------------------------------------------------------------------------------------
+# UTF-8 automaton (python mirror of Base/Utf8.v, used only to compute the product hint)
+# ------------------------------------------------------------------------------------------------
+U0, U1, U2, U2a, U2b, U3, U3a, U3b, UREJ = range(9)
+
+
+def ustep(u, b):
+    r = lambda lo, hi: lo <= b <= hi
+    if u == U0:
+        if r(0, 127): return U0
+        if r(194, 223): return U1
+        if b == 224: return U2a
+        if r(225, 236) or r(238, 239): return U2
+        if b == 237: return U2b
+        if b == 240: return U3a
+        if r(241, 243): return U3
+        if b == 244: return U3b
+        return UREJ
+    if u == U1: return U0 if r(128, 191) else UREJ
+    if u == U2: return U1 if r(128, 191) else UREJ
+    if u == U2a: return U1 if r(160, 191) else UREJ
+    if u == U2b: return U1 if r(128, 159) else UREJ
+    if u == U3: return U2 if r(128, 191) else UREJ
+    if u == U3a: return U2 if r(144, 191) else UREJ
+    if u == U3b: return U2 if r(128, 143) else UREJ
+    return UREJ
+
+
+def utf8_product(dfa):
+    """Pairs (q, u) reachable from (start, U0) through bytes the UTF-8 automaton accepts."""
+    seen = {(dfa.start, U0)}
+    dq = deque(seen)
+    while dq:
+        q, u = dq.popleft()
+        if q not in dfa.states:
+            continue
+        for lo, hi, t in dfa.states[q]['trans']:
+            if t == 0:
+                continue
+            for b in range(lo, hi + 1):
+                u2 = ustep(u, b)
+                if u2 != UREJ and (t, u2) not in seen:
+                    seen.add((t, u2)); dq.append((t, u2))
+    P = {}
+    for q, u in seen:
+        P.setdefault(q, []).append(u)
+    P[0] = list(range(8))        # the dead state paired with every non-rejecting UTF-8 state
+    return P
